@@ -873,6 +873,10 @@ func checkStream(t vkit.TB, c Case) {
 		class += "+duplex"
 	}
 	vkit.Case(class, big && between, sig)
+	vkit.AddExtra("stream_cases", 1)
+	if big && between {
+		vkit.AddExtra("stream_nontrivial_cases", 1)
+	}
 	vkit.Sample(class, summarize(c))
 	if big {
 		vkit.Class("feat:write>64KiB")
@@ -1130,7 +1134,7 @@ func genCase(t *rapid.T) Case {
 
 // TestStream is the generated search over write scripts, injected frames, endings and read sizes.
 func TestStream(t *testing.T) {
-	vkit.Check(t, 2400, 24000, func(t *rapid.T) {
+	vkit.Check(t, 2400, 16000, func(t *rapid.T) {
 		checkStream(t, genCase(t))
 	})
 }
